@@ -104,7 +104,7 @@ func (e *Enc) havocKey(st *State, k string, ref string) {
 	if k == "$alloc" {
 		old := e.getRaw(st, k)
 		n := e.fresh("alloc", bv64)
-		e.assume(app("bvule", old, n))
+		e.assume(and(app("bvule", old, n), app("bvult", n, bvLit(bigPow2(63), 64))))
 		st.cur[k] = n
 		e.writes = append(e.writes, WriteRec{Key: k, Reach: e.curReach})
 		return
@@ -822,11 +822,14 @@ func (e *Enc) invoke(fr *Frame, cc *ssa.CallCommon, recv Val, args []Val, st *St
 			}
 		}
 	}
-	// devirtualisation directives / interface-level contracts
-	if fn := e.ctx.devirt(name); fn != nil {
-		rv := Val{T: fn.Params[0].Type(), L: []string{recv.L[1]}}
-		e.devirtUsed[name] = true
-		return e.callStatic(fr, fn, append([]Val{rv}, args...), st, reach, pos, rt, cc)
+	// devirtualisation directive: the interface is assumed to hold one concrete type; that assumption is an obligation here
+	if ct, ok := e.ctx.devirtT[typeKeyFull(it)]; ok {
+		if fn := e.ctx.prog.LookupMethod(ct, cc.Method.Pkg(), cc.Method.Name()); fn != nil {
+			e.obligAndAssume("devirt", e.exprText(pos), reach, eq(recv.L[0], e.typeID(ct)), pos, safetyTag, "interface value is not the devirtualised type "+typeKey(ct))
+			rv := Val{T: ct, L: []string{recv.L[1]}}
+			e.devirtUsed[typeKey(it)+" = "+typeKey(ct)] = true
+			return e.callStatic(fr, fn, append([]Val{rv}, args...), st, reach, pos, rt, cc)
+		}
 	}
 	// CHA: union of the write sets of all implementations in the loaded packages
 	ws := e.ctx.ifaceWriteSet(it, cc.Method)
@@ -903,6 +906,8 @@ type FuncResult struct {
 	Loops    int
 	Instrs   int
 	RetReach []string
+	Keys     map[string]bool
+	ParamVals []Val
 }
 
 func (ctx *Ctx) verifyFunc(fn *ssa.Function, opt *EncOpts) *FuncResult {
@@ -916,7 +921,7 @@ func (ctx *Ctx) verifyFunc(fn *ssa.Function, opt *EncOpts) *FuncResult {
 	e.keySort = e1.keySort
 	e.opt = opt
 	e.run(fn)
-	res := &FuncResult{Key: ctx.funcKey(fn), Obls: e.obls, Fatal: e.fatal, Script: e.body, Decl: e.decl, RetReach: e.retReach}
+	res := &FuncResult{Key: ctx.funcKey(fn), Obls: e.obls, Fatal: e.fatal, Script: e.body, Decl: e.decl, RetReach: e.retReach, Keys: e.seenKeys, ParamVals: e.paramVals}
 	for n := range e.notes {
 		res.Notes = append(res.Notes, n)
 	}
@@ -978,6 +983,7 @@ func (e *Enc) run(fn *ssa.Function) {
 	for _, p := range fn.Params {
 		v := e.havocVal(p.Type(), "p_"+p.Name())
 		fr.env[p] = v
+		e.paramVals = append(e.paramVals, v)
 		e.wfAssume(&st, "true", v)
 	}
 	if recv := fn.Signature.Recv(); recv != nil && isPtr(recv.Type()) && len(fn.Params) > 0 {
